@@ -376,12 +376,22 @@ def _hb_forms(eng, st, pd, size):
     forms = []
     # (i) scan: bit iterates reversed(range(size)) and the path assumes path_diff & (1 << bit) > 0
     scan = ("call", "ext:reversed", (("call", "ext:range", (size,), ()),), ())
-    for t, pol, _ in st.log:
+    for t, pol, tnode in st.log:
         tt, pp = truth_norm(t, pol)
         if pp and tt[0] == "bin" and tt[1] == "&":
             for a, b in ((tt[2], tt[3]), (tt[3], tt[2])):
                 if a == pd and b[0] == "bin" and b[1] == "<<" and b[2] == C(1) and b[3][0] == "iter" and b[3][1] == scan:
-                    forms.append((({size: 1, b[3]: -1}, -1), ({b[3]: -1}, -1)))
+                    # the scan runs from the top bit down: the hit is the *highest* set bit only if the scan stops there
+                    stops = False
+                    at = [i for i, ev in enumerate(st.events) if ev.k == "assume" and ev.node is tnode]
+                    for ev in st.events[at[-1] + 1:] if at else []:
+                        if ev.k == "stmt" and isinstance(ev.node, ast.Break) or ev.k == "return":
+                            stops = True
+                            break
+                        if ev.k in ("loopexit", "loop") or (ev.k == "stmt" and isinstance(ev.node, ast.Continue)):
+                            break
+                    if stops:
+                        forms.append((({size: 1, b[3]: -1}, -1), ({b[3]: -1}, -1)))
     # (ii) bit_length: highest set bit = path_diff.bit_length() - 1
     bl = ("call", "m:bit_length", (pd,), ())
     forms.append((({size: 1, bl: -1}, 0), ({bl: -1}, 0)))
